@@ -28,6 +28,12 @@ Next == /\ st.op = "start" /\ UNCHANGED <<d, img>>
            \/ \E v \in Vals :
               st' = [op |-> "set", q |-> d.q, off |-> d.off, w |-> d.w, val |-> v, base |-> 2, pre |-> img,
                      post |-> SetImpl(MemHost, Branch, img, 2, d, v), ret |-> Zero64]
+           \* read, write, read, write, read of one field inside ONE caller function (the calls have identical arguments apart from the
+           \* value): every read returns what the bytes hold at that moment, not what an earlier read returned
+           \/ LET v1 == <<1, 35, 69, 103, 137, 171, 205, 239>>  v2 == AltA
+                   m1 == SetImpl(MemHost, Branch, img, 2, d, v1)  m2 == SetImpl(MemHost, Branch, m1, 2, d, v2) IN
+              st' = [op |-> "gsg", q |-> d.q, off |-> d.off, w |-> d.w, val |-> v1, val2 |-> v2, base |-> 2, pre |-> img, post |-> m2,
+                     r0 |-> GetImpl(MemHost, Branch, img, 2, d), r1 |-> GetImpl(MemHost, Branch, m1, 2, d), ret |-> GetImpl(MemHost, Branch, m2, 2, d)]
 Spec == Init /\ [][Next]_<<d, img, st>>
 
 \* T7: with the helper set of the host, the walk IS the bit semantics - on either host
